@@ -8,7 +8,7 @@ import scipy
 import scipy.sparse
 
 from renormalizer.model import Model, HolsteinModel
-from renormalizer.mps.backend import xp
+from renormalizer.mps.backend import xp, backend
 from renormalizer.mps.matrix import moveaxis, tensordot
 from renormalizer.mps.mp import MatrixProduct
 from renormalizer.mps.svd_qn import add_outer
@@ -285,8 +285,12 @@ class Mpo(MatrixProduct):
         # evaluate the symbolic mpo
         assert model.basis is not None
 
-        for impo, mo in enumerate(self.symbolic_mpo):
-            mo_mat = symbolic_mo_to_numeric_mo(model.basis[impo], mo, self.dtype)
+        mo_mat_list = [symbolic_mo_to_numeric_mo(model.basis[impo], mo, self.dtype)
+                       for impo, mo in enumerate(self.symbolic_mpo)]
+        if any(np.iscomplexobj(mo_mat) for mo_mat in mo_mat_list):
+            # the local matrices can be complex even if all factors are real
+            self.dtype = backend.complex_dtype
+        for mo_mat in mo_mat_list:
             self.append(mo_mat)
 
 
